@@ -640,14 +640,40 @@ def format_value(it, v, conv, spec):
     return None
 
 
+def dependent_text(it, e, vals):
+    """an f-string that cannot be given a shape: still a FUNCTION of its parts - the same parts give the same text, and the
+    text depends on exactly those parts (uninterpreted function per f-string site over the opaque parts; concrete parts are
+    folded into the function's name).  Falls back to an unconstrained text when a part has no term of its own."""
+    import hashlib
+    args, conc = [], []
+    for v in vals:
+        if isinstance(v, SIte):
+            v = it.force(v)
+        if isinstance(v, SVal) and v.e.sort() == V:
+            args.append(v.e)
+        elif not is_sym(v) and deep_concrete(v) and not isinstance(v, (Abstract, SObj)):
+            conc.append(repr(v))
+        else:
+            return fresh_text(it, "fstr")
+    if not args:
+        return fresh_text(it, "fstr")
+    tag = hashlib.sha1(("|".join(conc) + f"@{getattr(e, 'lineno', 0)}:{getattr(e, 'col_offset', 0)}:{ast.dump(e)[:200]}").encode()).hexdigest()[:10]
+    f = z3.Function(f"fstr_{tag}", *([V] * len(args)), V)
+    t = f(*args)
+    it.assume(tlen(t) >= 0)
+    return SVal(str, t)
+
+
 def joinedstr(it, e, env):
     parts = []
     shaped = True
+    vals = []
     for p in e.values:
         if isinstance(p, ast.Constant):
             parts.append(p.value)
             continue
         v = it.ev(p.value, env)
+        vals.append(v)
         spec = ""
         if p.format_spec is not None:
             sp = joinedstr(it, p.format_spec, env)
@@ -663,7 +689,7 @@ def joinedstr(it, e, env):
         else:
             parts.append(r)
     if not shaped:
-        return fresh_text(it, "fstr")
+        return dependent_text(it, e, vals)
     if all(isinstance(p, str) for p in parts):
         return "".join(parts)
     items = []
@@ -848,6 +874,10 @@ def m_getattr(it, args, kw):
 
 
 def m_setattr(it, args, kw):
+    if isinstance(args[0], Abstract) and hasattr(args[0], "p_setattr") and is_sym(args[1]) and not (isinstance(args[1], SStr) and args[1].concrete()):
+        # an attribute named by a symbolic text: the abstract object decides what a write means (frames record it)
+        args[0].p_setattr(it, args[1], args[2])
+        return None
     it.setattr(args[0], it.concrete_key(args[1]), args[2])
     return None
 
@@ -914,9 +944,70 @@ def m_dict(it, args, kw):
     return d
 
 
+class GuardedSet(Abstract):
+    """a set of concrete (hashable) elements each of which is in the set under a condition (the keys of an abstract mapping)"""
+
+    def __init__(self, items):
+        d = {}
+        for g, k in items:
+            d[k] = zor(d[k], g) if k in d else g
+        self.items = d
+
+    def p_len(self, it):
+        if all(g is True for g in self.items.values()):
+            return len(self.items)
+        return SInt(z3.Sum([z3.If(zbool(g), 1, 0) for g in self.items.values()])) if self.items else 0
+
+    def p_contains(self, it, item):
+        return self.items.get(it.concrete_key(item), False)
+
+    def p_truth(self, it):
+        return zor(*self.items.values())
+
+    def p_iter(self, it):
+        return [k for k, g in self.items.items() if g is True or (g is not False and it.branch(zbool(g)))]
+
+    def p_giter(self, it):
+        return [(g, k) for k, g in self.items.items() if g is not False]
+
+    def p_getattr(self, it, name):
+        if name in ("intersection", "__and__"):
+            def inter(*others):
+                cur = dict(self.items)
+                for o in others:
+                    og = dict((k, g) for g, k in ((g, it.concrete_key(k)) for g, k in it.giterate(o)))
+                    cur = {k: zand(g, og[k]) for k, g in cur.items() if k in og}
+                return GuardedSet([(g, k) for k, g in cur.items()])
+            return inter
+        if name in ("union", "__or__"):
+            def union(*others):
+                allitems = [(g, k) for k, g in self.items.items()]
+                for o in others:
+                    allitems += [(g, it.concrete_key(k)) for g, k in it.giterate(o)]
+                return GuardedSet(allitems)
+            return union
+        if name in ("difference", "__sub__"):
+            def diff(*others):
+                cur = dict(self.items)
+                for o in others:
+                    for g, k in it.giterate(o):
+                        k = it.concrete_key(k)
+                        if k in cur:
+                            cur[k] = zand(cur[k], znot(g))
+                return GuardedSet([(g, k) for k, g in cur.items()])
+            return diff
+        raise Unsupported(f"set.{name} on a set with undecided members")
+
+
 def m_set(it, args, kw):
     if not args:
         return set()
+    if isinstance(args[0], Abstract) and hasattr(args[0], "p_giter"):
+        gi = list(args[0].p_giter(it))
+        if all(deep_concrete(k) for g, k in gi):
+            if all(g is True for g, k in gi):
+                return set(k for g, k in gi)
+            return GuardedSet(gi)
     items = it.iterate(args[0])
     if all(deep_concrete(x) for x in items):
         return set(items)
@@ -1590,7 +1681,7 @@ def install(it):
         B.len: m_len, B.int: m_int, B.str: m_str, B.repr: m_repr, B.bool: m_bool, B.sum: m_sum,
         B.enumerate: m_enumerate, B.isinstance: m_isinstance, B.type: m_type, B.getattr: m_getattr,
         B.setattr: m_setattr, B.hasattr: m_hasattr, B.abs: m_abs, B.divmod: m_divmod, B.list: m_list,
-        B.tuple: m_tuple, B.dict: m_dict, B.set: m_set, B.range: m_range, B.zip: m_zip, B.sorted: m_sorted,
+        B.tuple: m_tuple, B.dict: m_dict, B.set: m_set, B.frozenset: m_set, B.range: m_range, B.zip: m_zip, B.sorted: m_sorted,
         B.any: m_any, B.all: m_all, B.min: m_minmax("min"), B.max: m_minmax("max"), B.bytes: m_bytes,
         B.print: m_print, B.ord: m_ord, B.chr: m_chr, B.format: m_format_builtin, B.locals: m_locals, B.next: m_next,
         math.copysign: m_copysign,
